@@ -27,6 +27,9 @@ type spec struct {
 	Cfg    hist.Config `json:"cfg"`
 	Store  bool        `json:"store"` // compactions through Store.CompactDB (interval guard) instead of DB.Compact
 	Guard  bool        `json:"guard"` // with Store: 24h intervals so the "too early" guard is exercised
+	// Backlog > 0: before the generated part, that many single-commit level-0 files are
+	// produced and then compacted in one pass per level (large compaction inputs)
+	Backlog int `json:"backlog,omitempty"`
 }
 
 func init() {
@@ -50,6 +53,20 @@ func cases(run *vf.Run) ([]json.RawMessage, error) {
 		n = 600
 	}
 	var out []json.RawMessage
+	backlogs := []int{140, 300}
+	if run.Tier == "thorough" {
+		backlogs = []int{70, 140, 300, 520, 1100}
+	}
+	for i, b := range backlogs {
+		rng := rand.New(rand.NewSource(vf.SubSeed(run.Seed, "C06-backlog", i)))
+		cfg := hist.RandomConfig(rng)
+		cfg.PageSize = []int{4096, 512, 1024}[i%3]
+		cfg.MinCheckpointPageN = 1000
+		cfg.TruncatePageN = 0
+		cfg.MaxSyncWALFrames = 0
+		cfg.MaxSyncLTXFiles = 0
+		out = append(out, vf.Spec(spec{Seed: vf.SubSeed(run.Seed, "C06-backlog-case", i), Ops: 6, Levels: 2 + i%2, Cfg: cfg, Backlog: b}))
+	}
 	for i := 0; i < n; i++ {
 		rng := rand.New(rand.NewSource(vf.SubSeed(run.Seed, "C06", i)))
 		cfg := hist.RandomConfig(rng)
@@ -129,6 +146,27 @@ func runCase(run *vf.Run, raw json.RawMessage, dir string) *vf.Result {
 			return false
 		}
 		return true
+	}
+	if s.Backlog > 0 {
+		for i := 0; i < s.Backlog; i++ {
+			if _, err := e.AppWriteKind([]string{"ins-small", "update", "ins-small", "delete-half"}[rng.Intn(4)]); err != nil {
+				return herr(err)
+			}
+			if err := e.LS.Sync(ctx); err != nil {
+				e.Logf("backlog sync err=%v", err)
+			}
+		}
+		ops = append(ops, fmt.Sprintf("backlog%d", s.Backlog))
+		if upload() {
+			res.Count("backlog_level0_files", len(oracle.ListLevel(e.RepPath, 0)))
+			for lvl := 1; lvl <= s.Levels; lvl++ {
+				_, err := e.LS.Compact(ctx, lvl)
+				e.Logf("backlog compact level %d err=%v", lvl, err)
+			}
+			if st.checkAll("backlog") {
+				return res
+			}
+		}
 	}
 	for i := 0; i < s.Ops; i++ {
 		r := rng.Intn(24)
